@@ -294,6 +294,16 @@ def conf_requests(rng, tier, texts):
 # configuration families (tools/conffam.py): macro-name relations, integer literals, path-list shapes of maildir blocks
 # --------------------------------------------------------------------------
 
+def _recorded(pairs):
+    """What the unchanged program does with the shapes the manual does not settle: {path list / body / companion block: verdicts}."""
+    out = {}
+    for name, verdict in pairs:
+        _, lname, form, body, comp = name.split(':')
+        k = '%s, %s, %s' % (lname, 'with reject' if body != 'no-reject' else 'without reject', comp)
+        out.setdefault(k, set()).add(verdict)
+    return {k: '/'.join(sorted(v)) for k, v in sorted(out.items())}
+
+
 def family_unit_stage(rep, h, henv, dconf, tier, rng):
     """The three families through the real parser (`conf` of h_parse), judged by the manuals' oracle (a deviation is a failing input:
     configuration text, -D options, what is wrong) and compared with `M conf` (a disagreement with the parser model is a broken
@@ -339,7 +349,7 @@ def family_unit_stage(rep, h, henv, dconf, tier, rng):
         'integer_cases': len(icases), 'integer_accepted': sum(1 for c in icases if c[5] is not None), 'integer_literals': len(conffam.int_literals(tier)),
         'integer_unit_lexemes': conffam.unit_lexemes(tier),
         'path_list_cases': len(scases), 'path_list_expected': exp(scases, 2),
-        'path_list_recorded': {c[0]: impl[r].split(' ')[0] for c, r in zip(scases, sreqs) if c[2] == 'either' and c[0].endswith(':alone')},
+        'path_list_recorded': _recorded([(c[0], impl[r].split(' ')[0]) for c, r in zip(scases, sreqs) if c[2] == 'either']),
         'deviations': {k: len(v) for k, v in bad.items()},
     })
     return stat
@@ -708,7 +718,7 @@ def run(rep):
     fam = family_process_cases(rep.tier)
     with cf.ThreadPoolExecutor(vlib.NCPU) as ex:
         matrix = list(ex.map(cell, cells))
-        famres = list(ex.map(lambda jc: jc[0](tools, jc[1]), fam))
+        famres = list(ex.map(lambda jc: jc[0](tools, jc[1], rep.tier), fam))
         results = list(ex.map(accept, acc)) + list(ex.map(reject, rej)) + list(ex.map(total, tot)) + matrix
     nfam = {}
     for r in famres:
@@ -779,7 +789,7 @@ def run(rep):
                     'after: never a crash, reject in rules that apply to a real maildir rejects the file.  Every case also goes through M conf.',
             'process_cases': len(famres), 'process_kinds': {k: sum(1 for r in famres if r['kind'].split(':')[1] == k) for k in sorted(set(r['kind'].split(':')[1] for r in famres))},
             'process_deviations': nfam,
-            'process_path_lists_recorded': {r['kind']: ('accepted' if r.get('accepted') else 'rejected') for r in famres if r['kind'].startswith('either:') and r['kind'].endswith(':alone')},
+            'process_path_lists_recorded': _recorded([(r['kind'].split(':', 1)[1], 'accepted' if r.get('accepted') else 'rejected') for r in famres if r['kind'].startswith('either:')]),
         }),
         'correspondence_mismatches': len(corr_bad),
         'parser_requests': len(creqs), 'parser_accepted': conf_ok, 'parser_rejected': conf_err,
@@ -801,7 +811,9 @@ def run(rep):
 
 def replay(rep, path):
     import json
-    print(json.dumps(json.load(open(path)), indent=1)[:3000])
+    j = json.load(open(path))
+    print(json.dumps(j, indent=1)[:3000])
     sc = vlib.Scratch()
     vlib.lean_gate(rep, 'C14', sc, [])
+    conffam.replay(j, sc)
     rep.coverage.update({'evaluations': 1, 'distinct_nontrivial': 1})
